@@ -193,7 +193,8 @@ def seeded_canaries(pid, units):
         name = os.path.basename(d)
         try: meta = json.load(open(os.path.join(d, "meta.json")))
         except Exception: continue
-        if not meta.get("detected"): continue
+        # only seeds that the final machinery is recorded to catch (tools/seed_status.py writes status_now)
+        if meta.get("status_now", "caught" if meta.get("detected") else "") != "caught": continue
         patch = os.path.join(d, "patch.diff")
         files = re.findall(r"^\+\+\+ b/(\S+)", open(patch, errors="replace").read(), re.M)
         ov = os.path.join(R.BUILD, "seedov-" + name)
